@@ -168,8 +168,9 @@ class Tokenizer:
                         # before CHAR production test for incomplete comment
                         possiblecomment = '%s*/' % text[pos:]
                         match = self.commentmatcher(possiblecomment)
-                        if match and self._doComments:
-                            yield ('COMMENT', possiblecomment, line, col)
+                        if match:
+                            if self._doComments:
+                                yield ('COMMENT', possiblecomment, line, col)
                             pos = _len_text  # ate all remaining text
                             break
 
